@@ -200,6 +200,7 @@ pub fn gen(prop: &str, seed: u64) -> Plan {
         "C04" => gen_c04(seed),
         "C09" => gen_c09(seed),
         "C08" => gen_c08(seed),
+        "C10" => gen_c10(seed),
         _ => gen_c03(seed),
     }
 }
@@ -494,4 +495,55 @@ fn gen_c08(seed: u64) -> Plan {
         "stop_when_caught_up".into(),
     ];
     finish(b, until, 600_000)
+}
+
+/// Crafted, damaged and out-of-context messages in every peer state.
+fn gen_c10(seed: u64) -> Plan {
+    let mut b = base("C10", seed, 120, 3);
+    // the last peer is the attacker; it also behaves like a normal full node in between
+    if b.plan.peers.len() < 2 || b.rng.chance(1, 2) {
+        let mut a = b.plan.peers[0].clone();
+        a.identity = 900;
+        b.plan.peers.push(a);
+    }
+    let attacker = b.plan.peers.len() - 1;
+    connect_all(&mut b, 3_000);
+    let until = b.rng.range(30_000, 150_000);
+    growth(&mut b, until);
+    let tip = b.plan.initial_blocks;
+    if b.rng.chance(4, 5) {
+        let at = b.rng.range(0, 10_000);
+        let scripts = random_scripts(&mut b, 3, tip);
+        add(&mut b.plan, at, Action::User(UserOp::SetScripts { cmd: SetCmd::All, scripts }));
+    }
+    if b.rng.chance(1, 3) {
+        let at = b.rng.range(0, until);
+        add(&mut b.plan, at, Action::User(UserOp::FetchHeader(HashRef::Block { branch: 0, number: b.rng.range(0, tip) })));
+        let at = b.rng.range(0, until);
+        add(&mut b.plan, at, Action::User(UserOp::FetchTransaction(HashRef::Tx { branch: 0, number: b.rng.range(0, tip), k: 0 })));
+    }
+    let n = b.rng.range(8, 60);
+    let focus = b.rng.below(9); // 8 = all kinds
+    for _ in 0..n {
+        let at = b.rng.range(500, until);
+        let kind = if focus < 8 && b.rng.chance(2, 3) { focus as u32 } else { b.rng.below(8) as u32 };
+        let peer = if b.rng.chance(4, 5) { attacker } else { b.rng.usize_below(b.plan.peers.len()) };
+        add(
+            &mut b.plan,
+            at,
+            Action::Inject {
+                peer,
+                spec: InjectSpec { seed: b.rng.next_u64(), kind },
+            },
+        );
+        // a banned attacker comes back under the same identity after the ban
+        if b.rng.chance(1, 6) {
+            add(&mut b.plan, at + b.rng.range(1_000, 20_000), Action::Connect { peer: attacker });
+        }
+    }
+    if b.rng.chance(1, 4) {
+        add(&mut b.plan, b.rng.range(1_000, until), Action::Restart);
+    }
+    b.plan.flags = vec!["byz".into(), "no_ban_reconnect_delay".into()];
+    finish(b, until, 60_000)
 }
